@@ -145,4 +145,55 @@ brk("C17", "c17-extended-ch2", CC + "extended_characters.py", "YEN_SIGN = (0x133
 ben("C17", "c17-benign-hex-case", CC + "control_codes.py", "EDM = (0x142C, 0x1C2C, 0x152C, 0x1D2C)", "EDM = (0x142c, 0x1c2c, 0x152c, 0x1d2c)")
 ben("C17", "c17-benign-mask-hex", "ttconv/scc/word.py", "PARITY_BIT_MASK = 0b01111111", "PARITY_BIT_MASK = 0x7F")
 
+
+# ---------------------------------------------------------------------------------------- C02
+brk("C02", "c02-anim-parent-frame", ISD, "        anim_step.begin,\n        anim_step.end,\n        begin_time,\n        end_time\n      )", "        anim_step.begin,\n        anim_step.end,\n        parent_computed_begin,\n        parent_computed_end\n      )", "DEP-frame")
+brk("C02", "c02-end-not-collected", ISD, "      s_times.add(begin_time)\n\n      if end_time is not None:\n        s_times.add(end_time)\n", "      s_times.add(begin_time)\n", "COMPLETE")
+brk("C02", "c02-unsorted", ISD, "return SignificantTimes(sorted(s_times), tuple(cache))", "return SignificantTimes(list(s_times), tuple(cache))", "SORTED")
+brk("C02", "c02-children-parent-frame", ISD, "compute_sig_times(interval_cache, content_interval, s_times, child_element, begin_time, end_time)", "compute_sig_times(interval_cache, content_interval, s_times, child_element, parent_begin, parent_end)", "DEP-frame")
+brk("C02", "c02-zip-shift", ISD, "    return list(zip(sig_times, isds))", "    return list(zip(sig_times[1:], isds))", "SORTED")
+brk("C02", "c02-regions-not-collected", ISD, "      for region in cached_doc.iter_regions():\n        compute_sig_times(interval_cache, content_interval, s_times, region, 0, None)\n", "", "COMPLETE")
+brk("C02", "c02-anim-begin-dropped", ISD, "        s_times.add(anim_begin_time)\n\n", "", "COMPLETE")
+ben("C02", "c02-benign-iter", ISD, "      for child_element in iter(element):", "      for child_element in element:")
+ben("C02", "c02-benign-comment", ISD, "      # add signficant times for any animation step \n", "      # animation steps\n")
+
+# ---------------------------------------------------------------------------------------- C03
+SPY = "ttconv/style_properties.py"
+brk("C03", "c03-specified-overwrites", ISD, "      if isd_element.has_style(spec_style_prop):\n        # skip if the style has already been set\n        continue\n\n", "", "PRI-style")
+brk("C03", "c03-order-extent-position", ISD, "    styles.StyleProperties.Extent,\n    styles.StyleProperties.Origin,\n    styles.StyleProperties.Position,", "    styles.StyleProperties.Position,\n    styles.StyleProperties.Origin,\n    styles.StyleProperties.Extent,", "TAB-compute-order")
+brk("C03", "c03-color-not-inherited", SPY, "Corresponds to tts:color.'''\n\n    is_inherited = True", "Corresponds to tts:color.'''\n\n    is_inherited = False", "TAB-styles")
+brk("C03", "c03-initial-textalign", SPY, "      return TextAlignType.start", "      return TextAlignType.center", "TAB-styles")
+brk("C03", "c03-span-loses-color", MODEL, "Span element, as specified in TTML2'''\n\n  _applicableStyles = frozenset([\n    StyleProperties.BackgroundColor,\n    StyleProperties.Color,", "Span element, as specified in TTML2'''\n\n  _applicableStyles = frozenset([\n    StyleProperties.BackgroundColor,", "TAB-applies")
+brk("C03", "c03-origin-x-rows", ISD, "      x = _compute_length(\n        style_value.x,\n        _make_rw_length(100),\n        None,\n        _make_rw_length(100 / element.get_doc().get_cell_resolution().columns),", "      x = _compute_length(\n        style_value.x,\n        _make_rw_length(100),\n        None,\n        _make_rh_length(100 / element.get_doc().get_cell_resolution().rows),", "AXIS")
+brk("C03", "c03-padding-axis", ISD, "      c_start = _compute_length(\n        padding_value.start,\n        extent.width if not is_vertical else extent.height,", "      c_start = _compute_length(\n        padding_value.start,\n        extent.height if not is_vertical else extent.width,", "AXIS")
+brk("C03", "c03-pct-not-divided", ISD, "      value=source_length.value * pct_ref.value / 100,", "      value=source_length.value * pct_ref.value,", "DSP-units")
+brk("C03", "c03-direction-swapped", ISD, "direction = styles.DirectionType.ltr if element.get_style(styles.StyleProperties.WritingMode) == styles.WritingModeType.lrtb \\\n                  else styles.DirectionType.rtl", "direction = styles.DirectionType.rtl if element.get_style(styles.StyleProperties.WritingMode) == styles.WritingModeType.lrtb \\\n                  else styles.DirectionType.ltr", "PRI-style")
+brk("C03", "c03-fontsize-inherit-overwrites", ISD, "    def inherit(cls, parent: model.ContentElement, element: model.ContentElement):\n      if element.has_style(cls.style_prop):\n        return\n\n      parent_value: styles.LengthType", "    def inherit(cls, parent: model.ContentElement, element: model.ContentElement):\n      parent_value: styles.LengthType", "PRI-style")
+brk("C03", "c03-decoration-no-merge", ISD, "underline=spec_value.underline if spec_value.underline is not None else parent_value.underline,", "underline=spec_value.underline,", "PRI-style")
+ben("C03", "c03-benign-applicable-order", MODEL, "Body element, as specified in TTML2'''\n\n  _applicableStyles = frozenset([\n    StyleProperties.BackgroundColor,\n    StyleProperties.Display,", "Body element, as specified in TTML2'''\n\n  _applicableStyles = frozenset([\n    StyleProperties.Display,\n    StyleProperties.BackgroundColor,")
+ben("C03", "c03-benign-initial-kw", SPY, "      return LengthType(1, LengthType.Units.c)", "      return LengthType(value=1, units=LengthType.Units.c)")
+
+# ---------------------------------------------------------------------------------------- C13
+brk("C13", "c13-disparity-unscheduled", ISD, "    styles.StyleProperties.Padding,\n    styles.StyleProperties.Disparity\n  )", "    styles.StyleProperties.Padding\n  )", "TAB-lengths")
+brk("C13", "c13-linepadding-raw", ISD, "      element.set_style(\n        cls.style_prop,\n        _compute_length(\n          element.get_style(cls.style_prop),\n          element.get_style(styles.StyleProperties.FontSize),\n          element.get_style(styles.StyleProperties.FontSize),\n          _make_rh_length(100 / element.get_doc().get_cell_resolution().rows),\n          _make_rh_length(100 / element.get_doc().get_px_resolution().height)\n        )\n      )\n\n  class LuminanceGain", "      element.set_style(\n        cls.style_prop,\n        element.get_style(cls.style_prop)\n      )\n\n  class LuminanceGain", "TAB-lengths")
+brk("C13", "c13-outline-raw-thickness", ISD, "          thickness=_compute_length(\n            value.thickness,", "          thickness=value.thickness if value.thickness.value == 0 else _compute_length(\n            value.thickness,", "TAB-lengths")
+brk("C13", "c13-isd-timing", ISD, "      isd_element = element.__class__(isd)\n      isd_element.set_id(element.get_id())", "      isd_element = element.__class__(isd)\n      isd_element.set_id(element.get_id())\n      isd_element.set_begin(element.get_begin())", "OWN-isd")
+brk("C13", "c13-early-return", ISD, "    # remove styles that are not applicable\n\n    for style_prop in list(isd_element.iter_styles()):", "    if isinstance(isd_element, model.Br):\n      return isd_element\n\n    # remove styles that are not applicable\n\n    for style_prop in list(isd_element.iter_styles()):", "ORD-applicable")
+brk("C13", "c13-origin-position-differ", ISD, "        styles.CoordinateType(\n            x=h_offset,\n            y=v_offset\n          )", "        styles.CoordinateType(\n            x=v_offset,\n            y=h_offset\n          )", "DEP-position")
+brk("C13", "c13-lang-not-copied", ISD, "      self.set_lang(doc.get_lang())\n", "", "DSP-params")
+brk("C13", "c13-copy-to-isd", ISD, "      isd_element = element.__class__(isd)\n      isd_element.set_id(element.get_id())", "      isd_element = element.__class__(isd)\n      element.copy_to(isd_element)", "OWN-isd")
+ben("C13", "c13-benign-type", ISD, "      isd_element = element.__class__(isd)", "      isd_element = type(element)(isd)")
+ben("C13", "c13-benign-local", ISD, "      y = _compute_length(\n        style_value.y,\n        _make_rh_length(100),", "      full_height = _make_rh_length(100)\n      y = _compute_length(\n        style_value.y,\n        full_height,")
+
+# ---------------------------------------------------------------------------------------- C14
+brk("C14", "c14-mutates-source-style", ISD, "      styles_to_be_computed.add(spec_style_prop)\n      isd_element.set_style(spec_style_prop, element.get_style(spec_style_prop))", "      styles_to_be_computed.add(spec_style_prop)\n      element.set_style(spec_style_prop, element.get_style(spec_style_prop))\n      isd_element.set_style(spec_style_prop, element.get_style(spec_style_prop))", "PUR")
+brk("C14", "c14-writer-mutates-doc", "ttconv/srt/writer.py", "  srt = SrtContext(config if config is not None else SRTWriterConfiguration())\n", "  srt = SrtContext(config if config is not None else SRTWriterConfiguration())\n  if doc.get_body() is not None:\n    doc.get_body().set_begin(None)\n", "PUR")
+brk("C14", "c14-clone-detaches-source", ISD, "    new_element = type(element)(new_doc)\n    element.copy_to(new_element)", "    new_element = type(element)(new_doc)\n    element.copy_to(new_element)\n    element.remove()", "PUR")
+brk("C14", "c14-copy-loses-end", MODEL, "    dest.set_begin(self.get_begin())\n    dest.set_end(self.get_end())\n    dest.set_id(self.get_id())", "    dest.set_begin(self.get_begin())\n    dest.set_id(self.get_id())", "DSP-copy")
+brk("C14", "c14-bg-ignores-animation", ISD, "    for _anim_step in region.iter_animation_steps():\n      return True\n\n", "", "ORD-anim")
+brk("C14", "c14-shared-activity-cache", ISD, "      activity_cache = {}\n\n      if regions:", "      activity_cache = cached_doc.interval_cache\n\n      if regions:", "STATE")
+brk("C14", "c14-region-copy-loses-animation", MODEL, "    dest.set_begin(self.get_begin())\n    dest.set_end(self.get_end())\n    \n    for style_prop in self.iter_styles():\n      dest.set_style(style_prop, self.get_style(style_prop))\n\n    for anim_step in self.iter_animation_steps():\n      dest.add_animation_step(anim_step)\n\n  def set_id(self, element_id):", "    dest.set_begin(self.get_begin())\n    dest.set_end(self.get_end())\n    \n    for style_prop in self.iter_styles():\n      dest.set_style(style_prop, self.get_style(style_prop))\n\n  def set_id(self, element_id):", "DSP-copy")
+ben("C14", "c14-benign-fresh-mutation", ISD, "    new_element = type(element)(new_doc)\n    element.copy_to(new_element)", "    new_element = type(element)(new_doc)\n    element.copy_to(new_element)\n    new_element.set_lang(element.get_lang())")
+ben("C14", "c14-benign-anim-precise", ISD, "    for _anim_step in region.iter_animation_steps():\n      return True\n", "    if len(list(region.iter_animation_steps())) > 0:\n      return True\n")
+
 VARIANTS = V
